@@ -73,6 +73,26 @@ func gen(r *hx.Rand, n int, tier string, emit func(string), st *hx.Stats) {
 		emit(fmt.Sprintf("api %s %s", ep, hx.H(randBytes(r.Fork(), 10))))
 		st.Inc("api")
 	}
+	// ReadChanges: a token is bound to the type filter it was issued for (gate before the backend call)
+	nrc := 24
+	if tier == "thorough" {
+		nrc = 400
+	}
+	rcTypes := []string{"-", "doc", "folder", "user", "do", "doc|x"}
+	for i := 0; i < nrc; i++ {
+		c := r.Fork()
+		pat := make([]byte, 4+c.Intn(4))
+		for j := range pat {
+			pat[j] = "df"[c.Intn(2)]
+		}
+		issue := rcTypes[c.Intn(3)]
+		present := rcTypes[c.Intn(len(rcTypes))]
+		if c.Chance(1, 2) {
+			present = issue
+		}
+		emit(fmt.Sprintf("rcgate %s %s %d %s %d", pat, hx.HS(strings.ReplaceAll(issue, "-", "")), 1+c.Intn(2), hx.HS(strings.ReplaceAll(present, "-", "")), c.Intn(6)))
+		st.Inc("rcgate")
+	}
 	// concurrent issuing through one shared encoder
 	emit(fmt.Sprintf("conc %s 16 400", hx.H(randBytes(r.Fork(), 10))))
 	st.Inc("conc")
@@ -212,6 +232,10 @@ func exec(line string, st *hx.Stats) string {
 			return same + " rej"
 		}
 		return same + " acc " + hx.H(d2)
+	case "rcgate":
+		pages, _ := strconv.Atoi(f[3])
+		mut, _ := strconv.Atoi(f[5])
+		return rcGateCase(f[1], string(hx.MustUnH(f[2])), pages, string(hx.MustUnH(f[4])), mut)
 	case "api":
 		return apiCase(f[1], string(hx.MustUnH(f[2])))
 	case "conc":
@@ -381,6 +405,121 @@ func apiCase(ep, key string) string {
 		}
 	}
 	return fmt.Sprintf("issued=%s next=%s forged=%s foreign=%s", issued, next, forged, fo)
+}
+
+var (
+	rcOnce sync.Once
+	rcSrv  *server.Server
+)
+
+// rcGateCase: a fresh store whose changelog has the object types spelled by `pat` (d = doc, f = folder); pages
+// through ReadChanges(type=issue) `pages` times with page size 1, mutates the decoded token, presents it with
+// type=present. Output: "ranks=<ulid of change 0>,<ulid of change 1>,... raw=<presented decoded token>
+// class=<start|invalid|mismatch|resume|other:..> next=<rank of the first returned change|none>".
+func rcGateCase(pat, issue string, pages int, present string, mut int) string {
+	ctx := context.Background()
+	rcOnce.Do(func() {
+		rcSrv, _ = server.NewServerWithOpts(server.WithDatastore(memory.New()))
+	})
+	s := rcSrv
+	if s == nil {
+		return "servererr"
+	}
+	cs, err := s.CreateStore(ctx, &openfgav1.CreateStoreRequest{Name: "rc-gate-store"})
+	if err != nil {
+		return "setuperr"
+	}
+	storeID := cs.GetId()
+	rel := func() map[string]*openfgav1.Userset {
+		return map[string]*openfgav1.Userset{"viewer": {Userset: &openfgav1.Userset_This{}}}
+	}
+	md := func() *openfgav1.Metadata {
+		return &openfgav1.Metadata{Relations: map[string]*openfgav1.RelationMetadata{"viewer": {DirectlyRelatedUserTypes: []*openfgav1.RelationReference{{Type: "user"}}}}}
+	}
+	wm, err := s.WriteAuthorizationModel(ctx, &openfgav1.WriteAuthorizationModelRequest{StoreId: storeID, SchemaVersion: typesystem.SchemaVersion1_1,
+		TypeDefinitions: []*openfgav1.TypeDefinition{{Type: "user"}, {Type: "doc", Relations: rel(), Metadata: md()}, {Type: "folder", Relations: rel(), Metadata: md()}}})
+	if err != nil {
+		return "setuperr model"
+	}
+	for i, ch := range pat {
+		ty := "doc"
+		if ch == 'f' {
+			ty = "folder"
+		}
+		if _, err := s.Write(ctx, &openfgav1.WriteRequest{StoreId: storeID, AuthorizationModelId: wm.GetAuthorizationModelId(),
+			Writes: &openfgav1.WriteRequestWrites{TupleKeys: []*openfgav1.TupleKey{{Object: fmt.Sprintf("%s:%d", ty, i), Relation: "viewer", User: "user:a"}}}}); err != nil {
+			return "setuperr write"
+		}
+	}
+	objRank := func(c *openfgav1.TupleChange) string {
+		_, id, _ := strings.Cut(c.GetTupleKey().GetObject(), ":")
+		return id
+	}
+	// rank -> ulid: page through the unfiltered changelog with page size 1
+	var ranks []string
+	tok := ""
+	for i := 0; i < len(pat); i++ {
+		r, err := s.ReadChanges(ctx, &openfgav1.ReadChangesRequest{StoreId: storeID, PageSize: wrapperspb.Int32(1), ContinuationToken: tok})
+		if err != nil || len(r.GetChanges()) != 1 || objRank(r.GetChanges()[0]) != strconv.Itoa(i) {
+			return "setuperr paging"
+		}
+		tok = r.GetContinuationToken()
+		raw, err := base64.URLEncoding.DecodeString(tok)
+		if err != nil {
+			return "setuperr token"
+		}
+		u, _, _ := strings.Cut(string(raw), "|")
+		ranks = append(ranks, hx.HS(u))
+	}
+	// issue
+	tok = ""
+	for i := 0; i < pages; i++ {
+		r, err := s.ReadChanges(ctx, &openfgav1.ReadChangesRequest{StoreId: storeID, Type: issue, PageSize: wrapperspb.Int32(1), ContinuationToken: tok})
+		if err != nil {
+			return "issueerr"
+		}
+		if len(r.GetChanges()) == 0 {
+			break
+		}
+		tok = r.GetContinuationToken()
+	}
+	raw, err := base64.URLEncoding.DecodeString(tok)
+	if err != nil {
+		return "setuperr token"
+	}
+	u, t, _ := strings.Cut(string(raw), "|")
+	switch mut {
+	case 1: // forged: same position, the presented filter
+		raw = []byte(u + "|" + present)
+	case 2: // separator removed
+		raw = []byte(u + t)
+	case 3: // empty position
+		raw = []byte("|" + t)
+	case 4: // the filter with a suffix
+		raw = []byte(u + "|" + t + "|" + present)
+	case 5: // another issued position
+		if len(ranks) > 0 {
+			raw = append(hx.MustUnH(ranks[len(ranks)-1]), []byte("|"+t)...)
+		}
+	}
+	r, err := s.ReadChanges(ctx, &openfgav1.ReadChangesRequest{StoreId: storeID, Type: present, PageSize: wrapperspb.Int32(1), ContinuationToken: base64.URLEncoding.EncodeToString(raw)})
+	class, next := "resume", "none"
+	switch {
+	case err == nil:
+		if len(raw) == 0 {
+			class = "start"
+		}
+		if len(r.GetChanges()) > 0 {
+			next = objRank(r.GetChanges()[0])
+		}
+	case strings.Contains(err.Error(), "Invalid continuation token"):
+		class = "invalid"
+	case strings.Contains(err.Error(), "continuation token don't match"):
+		class = "mismatch"
+	default:
+		class = "other:" + strings.ReplaceAll(err.Error(), " ", "_")
+	}
+	return fmt.Sprintf("ranks=%s raw=%s class=%s next=%s", strings.Join(ranks, ","), hx.H(raw), class, next)
 }
 
 func main() { hx.Main(hx.Harness{Gen: gen, Exec: exec}) }
